@@ -486,7 +486,8 @@ def _eval_roundtrip(case, out, acc=None, tmpdir=None):
             if not touched <= allowed:
                 out.append((f"C10|update|other_keys_changed:{kind}", f"update(**{ch!r}) on {cfg!r} also changed {sorted(touched - set(ch))}"))
             t2 = probe_table(merged if not custom else dict(cfg, **ch), seed)
-            dg = "schemes" in ch  # stale dummy hash / keyword filtering can only show when the scheme list changes
+            # a stale dummy hash / stale keyword filtering shows when the scheme list, the default or the deprecation changes
+            dg = any(k.split("__")[-1] in ("schemes", "default", "deprecated") for k in ch)
             diff = first_diff(fingerprint(fresh, t2, seed, digests=dg), fingerprint(live, t2, seed, digests=dg))
             if diff:
                 out.append((f"C10|update|decisions_differ_from_fresh:{kind}:{diff[0]}", f"update(**{ch!r}) on {cfg!r}: {diff[1]} (fresh context vs updated one)"))
@@ -1051,6 +1052,10 @@ EXTRAS = [
     # vary_rounds at the top of its range (1.0 = 100%) and as a whole-number float
     {"schemes": ["pbkdf2_sha256", "md5_crypt"], "pbkdf2_sha256__default_rounds": 200, "pbkdf2_sha256__vary_rounds": 1.0},
     {"schemes": ["sha256_crypt"], "sha256_crypt__default_rounds": 2000, "sha256_crypt__max_rounds": 4000, "all__vary_rounds": "100%"},
+    # the default scheme takes a context keyword (user=), the others do not: a dummy hash or a keyword filter left over
+    # from before a change of the default shows as TypeError / a refused keyword
+    {"schemes": ["postgres_md5", "md5_crypt", "des_crypt"]},
+    {"schemes": ["md5_crypt", "postgres_md5"], "default": "postgres_md5", "admin__context__default": "md5_crypt"},
     # categories are application strings ("any string the application wishes to use"): capitals must survive every route
     {"schemes": ["sha256_crypt", "md5_crypt"], "Admin__context__default": "md5_crypt", "sha256_crypt__rounds": 1100,
      "STAFF__sha256_crypt__rounds": 1300, "Admin__context__deprecated": ["sha256_crypt"]},
